@@ -983,7 +983,7 @@ func c09NilContradiction(c *core.Ctx) {
 // watcher that sees the client go away.
 func c09CloseOnce(c *core.Ctx) {
 	const R = "C09.9"
-	c.Rule(R, "close-once: every close(ch) of a channel held in a struct field (engine, transports, types, utils, webtransport) is dominated by the success edge of a CompareAndSwap on an atomic flag of the same object, or runs inside sync.Once.Do, or is the frozen site Timer.Unref's unreachable-object cleanup (runs at most once per object); HttpContext.done is closed only by Flush — the response write and the request-context watcher both go through it, so a client that drops its connection during a write cannot make the second close panic on the send goroutine")
+	c.Rule(R, "close-once: every close(ch) of a channel held in a struct field (engine, transports, types, utils, webtransport) is dominated by the success edge of a CompareAndSwap on an atomic flag of the same object, or runs inside sync.Once.Do, or is the frozen site Timer.Unref's unreachable-object cleanup (runs at most once per object), or is the take-under-mutex idiom (field tested non-nil, closed and set to nil within one critical section of a mutex of the same object); HttpContext.done is closed only by Flush — the response write and the request-context watcher both go through it, so a client that drops its connection during a write cannot make the second close panic on the send goroutine")
 	pkgs := map[string]bool{"engine": true, "transports": true, "types": true, "utils": true, "webtransport": true, "events": true}
 	n := 0
 	for _, u := range c.P.Units {
@@ -1027,6 +1027,31 @@ func c09CloseOnce(c *core.Ctx) {
 						ok = true
 					}
 				}
+			}
+			// … or the take-under-mutex idiom: with a mutex of the same object held, the field is tested non-nil, closed
+			// and set to nil before the mutex is released — a second closer finds nil
+			if !ok {
+				nonNil := nilGuard(true, func(x *core.Unit, e ast.Expr) bool { return fieldOf(x.Info(), e) == f })
+				held := g.HeldAt(cl.Loc)
+				locked := false
+				for k := range held {
+					if strings.HasPrefix(k, strings.SplitN(f, ".", 2)[0]+".") {
+						locked = true
+					}
+				}
+				cleared := false
+				for _, a := range fieldAssigns(u, f) {
+					if a.Rhs != nil && core.IsNil(info, a.Rhs) && g.Dominates(cl.Loc, a.Loc) {
+						same := false
+						for k := range g.HeldAt(a.Loc) {
+							if held[k] {
+								same = true
+							}
+						}
+						cleared = same
+					}
+				}
+				ok = locked && g.GuardedBy(cl.Loc, nonNil) && cleared
 			}
 			if f == "HttpContext.done" {
 				ok = ok && u.Key == "types.(*HttpContext).Flush"
